@@ -47,6 +47,8 @@ type Contract struct {
 	line     int
 	nofresh  bool
 	nullable []string
+	boundAlpha string
+	boundLen   int
 }
 
 type SpecFunc struct {
@@ -501,6 +503,21 @@ func parseContractFile(pkg, path, src string) (*ContractFile, error) {
 		case "trusted":
 			if cur != nil {
 				cur.trusted = true
+			}
+		case "bounded":
+			// bounded alphabet "…" maxlen N : clauses of this function are checked by exhaustive enumeration only
+			if cur != nil {
+				f := strings.Fields(rest)
+				for k := 0; k+1 < len(f); k += 2 {
+					switch f[k] {
+					case "alphabet":
+						if u, err := strconv.Unquote(f[k+1]); err == nil {
+							cur.boundAlpha = u
+						}
+					case "maxlen":
+						cur.boundLen, _ = strconv.Atoi(f[k+1])
+					}
+				}
 			}
 		case "nullable":
 			if cur != nil {
